@@ -53,20 +53,19 @@ pub fn vx_set_token_tag(tokens: &mut Tokens, i: usize, s: String)
 // ---- externals: regex-based helpers (uninterpreted) ----
 pub uninterp spec fn spec_env_in_token(t: Seq<char>) -> bool;
 pub open spec fn has_op(s: Seq<char>) -> bool { s.contains('|') || s.contains('&') || s.contains('<') || s.contains('>') }
-pub uninterp spec fn spec_is_assign(t: Seq<char>) -> bool;
-#[verifier::external_body]
-pub fn is_assignment_word(text: &str) -> (r: bool) ensures r == spec_is_assign(text@) { unimplemented!() }
 // which words expand_env may touch, and what one word may look like afterwards
 pub open spec fn env_elig(t: Token) -> bool { t.0@ != "`"@ && t.0@ != "'"@ && t.0@ != "\\"@ && spec_env_in_token(t.1@) }
-pub open spec fn env_tok_ok(sh: Shell, o: Token, n: Token) -> bool {
+pub open spec fn env_tok_ok(sh: Shell, otoks: Seq<Token>, k: int, n: Token) -> bool {
+    let o = otoks[k];
     &&& (!env_elig(o) ==> n.1@ == o.1@ && n.0@ == o.0@)
     // C10: the new text is the specified single-pass expansion of the old text
     &&& (env_elig(o) ==> n.1@ == env_expand(sh, o.1@))
     // the tag is kept, or an unquoted word into which the value brought an operator character becomes double-quoted
     &&& (n.0@ == o.0@ || (o.0@.len() == 0 && n.0@ == "\""@ && !has_op(o.1@) && has_op(n.1@)))
     // C13: an operator character in a word that is still unquoted was written there, it did not come from a value
-    //      (NAME=value words are exempt: they are taken off the line as assignments before operators are looked for)
-    &&& (n.0@.len() == 0 && has_op(n.1@) ==> has_op(o.1@) || spec_is_assign(o.1@))
+    //      (exempt are only the untagged NAME=value words the line starts with: they are taken off the line as assignments before
+    //      operators are looked for; a NAME=value shaped word anywhere else is an argument like any other)
+    &&& (n.0@.len() == 0 && has_op(n.1@) ==> has_op(o.1@) || assign_prefix(otoks, k))
 }
 pub open spec fn env_lo(b: Seq<(usize, String)>, m: int, n: int) -> int { if 0 <= m < b.len() { b[m].0 as int } else { n } }
 pub open spec fn env_inb(b: Seq<(usize, String)>, k: int) -> bool { exists|m: int| 0 <= m < b.len() && (#[trigger] b[m]).0 as int == k }
@@ -268,6 +267,14 @@ pub proof fn lemma_alias_lits()
 }
 pub proof fn lemma_quote_lit() ensures "\""@ == seq!['"'], "\""@.len() == 1 { reveal_strlit("\""); assert("\""@ =~= seq!['"']); }
 //@FN has_operator_char
+// ---- shared with the other expansion unit (common.ASSIGN_PREFIX) ----
+pub uninterp spec fn spec_is_assign(t: Seq<char>) -> bool;
+#[verifier::external_body]
+pub fn is_assignment_word(text: &str) -> (r: bool) ensures r == spec_is_assign(text@) { unimplemented!() }
+pub open spec fn assign_prefix(toks: Seq<Token>, k: int) -> bool {
+    forall|j: int| 0 <= j <= k && j < toks.len() ==> (#[trigger] toks[j]).0@.len() == 0 && spec_is_assign(toks[j].1@)
+}
+//@FN in_assignment_prefix
 //@FN format_alias
 //@FN expand_one_env
 //@FN expand_alias
@@ -443,7 +450,7 @@ expand_env = Fn(S, 'expand_env', rewrites=TYRW, props=('C10',),
                              why='IndexMut + tuple-field assignment through a shim (frame: only that token tag changes)')],
     let_types={'buff': 'Vec<(usize, String)>'},
     ensures=[('C10+C13+C01.expand_env.words_change_only_as_specified',
-              'final(tokens)@.len() == old(tokens)@.len() && forall|k: int| 0 <= k < old(tokens)@.len() ==> env_tok_ok(*sh, old(tokens)@[k], #[trigger] final(tokens)@[k])')],
+              'final(tokens)@.len() == old(tokens)@.len() && forall|k: int| 0 <= k < old(tokens)@.len() ==> env_tok_ok(*sh, old(tokens)@, k, #[trigger] final(tokens)@[k])')],
     loops={
         0: Loop(invariant=[
             ('C10+C13+C01.inv.expand_env.idx', 'idx == __i0 && tokens@ == old(tokens)@'),
@@ -460,7 +467,7 @@ expand_env = Fn(S, 'expand_env', rewrites=TYRW, props=('C10',),
             ('C10+C13+C01.inv.expand_env.frame',
              'tokens@.len() == old(tokens)@.len() '
              '&& (forall|k: int| 0 <= k < env_lo(buff@, __i2 as int, tokens@.len() as int) ==> (#[trigger] tokens@[k]).0@ == old(tokens)@[k].0@ && tokens@[k].1@ == old(tokens)@[k].1@) '
-             '&& (forall|k: int| env_lo(buff@, __i2 as int, tokens@.len() as int) <= k < tokens@.len() ==> env_tok_ok(*sh, old(tokens)@[k], #[trigger] tokens@[k]))'),
+             '&& (forall|k: int| env_lo(buff@, __i2 as int, tokens@.len() as int) <= k < tokens@.len() ==> env_tok_ok(*sh, old(tokens)@, k, #[trigger] tokens@[k]))'),
             ('C10+C13+C01.inv.expand_env.buff2',
              'forall|m: int| 0 <= m < buff@.len() ==> (#[trigger] buff@[m]).0 < tokens@.len() && env_elig(old(tokens)@[buff@[m].0 as int]) '
              '&& buff@[m].1@ == env_expand(*sh, old(tokens)@[buff@[m].0 as int].1@)'),
@@ -471,6 +478,13 @@ expand_env = Fn(S, 'expand_env', rewrites=TYRW, props=('C10',),
     hints={'before-text:buff.push((idx, _token));': 'lemma_env_inb_push(buff@, (idx, _token));',
            'loop-1-exit': 'assert(env_expand(*sh, rest@) == rest@);',
            'loop-2-body-entry': 'lemma_quote_lit(); '
+               # the words up to the one being rewritten are still the original ones (the loop runs from the right): the prefix test sees the old line
+               'assert(__i2 < buff@.len() ==> buff@[__i2 - 1].0 < buff@[__i2 as int].0); '
+               'assert(buff@[__i2 - 1].0 < env_lo(buff@, __i2 as int, tokens@.len() as int)); '
+               'assert forall|j: int| 0 <= j <= buff@[__i2 - 1].0 implies (#[trigger] tokens@[j]).0@ == old(tokens)@[j].0@ && tokens@[j].1@ == old(tokens)@[j].1@ by {} '
+               'assert(assign_prefix(tokens@, buff@[__i2 - 1].0 as int) == assign_prefix(old(tokens)@, buff@[__i2 - 1].0 as int)) by { '
+               '  if assign_prefix(tokens@, buff@[__i2 - 1].0 as int) { assert forall|j: int| 0 <= j <= buff@[__i2 - 1].0 && j < old(tokens)@.len() implies (#[trigger] old(tokens)@[j]).0@.len() == 0 && spec_is_assign(old(tokens)@[j].1@) by { assert(tokens@[j].0@ == old(tokens)@[j].0@); } } '
+               '  if assign_prefix(old(tokens)@, buff@[__i2 - 1].0 as int) { assert forall|j: int| 0 <= j <= buff@[__i2 - 1].0 && j < tokens@.len() implies (#[trigger] tokens@[j]).0@.len() == 0 && spec_is_assign(tokens@[j].1@) by { assert(old(tokens)@[j].0@ == tokens@[j].0@); } } } '
                'assert forall|k: int| (buff@[__i2 - 1].0 as int) < k < env_lo(buff@, __i2 as int, tokens@.len() as int) implies !env_inb(buff@, k) by { lemma_env_gap(buff@, __i2 as int, k, tokens@.len() as int); }',
            'loop-2-exit': 'assert forall|k: int| 0 <= k < env_lo(buff@, 0, tokens@.len() as int) implies !env_inb(buff@, k) by { lemma_env_gap(buff@, 0, k, tokens@.len() as int); }'})
 expand_env.props = ('C10',)
@@ -485,7 +499,7 @@ do_expansion = Fn(S, 'do_expansion', add_params='Tracked(tr): Tracked<&mut PassT
               'final(tr).t == old(tr).t || final(tr).t == old(tr).t + seq![0int, 1int, 2int, 3int, 4int, 5int, 6int]')],
 )
 
-UNIT = Unit('U-EXP2', TEMPLATE, fns=[common.has_operator_fn(), add_alias, is_alias, remove_alias, get_alias_content, get_env, format_alias, expand_one_env, expand_alias, expand_home, expand_env, do_expansion],
+UNIT = Unit('U-EXP2', TEMPLATE, fns=[common.has_operator_fn(), common.in_assignment_prefix_fn(), add_alias, is_alias, remove_alias, get_alias_content, get_env, format_alias, expand_one_env, expand_alias, expand_home, expand_env, do_expansion],
             types=[TypeItem('src/types.rs', 'struct', 'LineInfo'), TypeItem('src/types.rs', 'struct', 'Job'),
                    TypeItem('src/shell.rs', 'struct', 'Shell', rewrites=[Rw('types::Job', 'Job', rule='R0')])],
             props=('C17', 'C10', 'C12', 'C13', 'C01', 'C05'))
